@@ -130,6 +130,7 @@ class ApplicationLogging:
         Terminate the logging for the application.
         """
         if self.__new_handler:
+            logging.getLogger().removeHandler(self.__new_handler)
             self.__new_handler.close()
             self.__new_handler = None
 
